@@ -79,6 +79,21 @@ func (c ColNullable[T]) EncodeState(b *Buffer) {
 }
 
 // Prepare ensures Preparable column propagation.
+// Infer passes the type of Nullable(T) elements down to the values column if
+// that column adopts parameters of type (precision, time zone, enum values).
+//
+// Type that is not Nullable is ignored: the mismatch is reported by the
+// column type check.
+func (c *ColNullable[T]) Infer(t ColumnType) error {
+	if t.Base() != ColumnTypeNullable {
+		return nil
+	}
+	if v, ok := c.Values.(Inferable); ok {
+		return v.Infer(t.Elem())
+	}
+	return nil
+}
+
 func (c *ColNullable[T]) Prepare() error {
 	if v, ok := c.Values.(Preparable); ok {
 		if err := v.Prepare(); err != nil {
